@@ -366,12 +366,16 @@ fn c16_run_inner(case: &CaseC16) -> CaseReport {
             cfg.cap_extra = case.delta as u32;
             cfg.off_pages = 0;
             let mode = Mode { trace: true, memhash: true, ..Mode::default() };
+            // truncate is left out of the lock-step comparison: what it does to bytes at or above allocated()
+            // is backend specific (a file keeps them, a new heap block / anonymous map does not) and the
+            // statement does not say otherwise; it is exercised by the single-backend run below
+            let lock_ops: Vec<Op> = case.ops.iter().filter(|o| !matches!(o, Op::Truncate { .. })).cloned().collect();
             let run = |b: Backend| {
                 let mut c = cfg.clone();
                 c.backend = b;
                 match c.flavor {
-                    Fl::Sync => run_history::<sync::Arena>(&c, &case.ops, mode.clone()),
-                    Fl::Unsync => run_history::<unsync::Arena>(&c, &case.ops, mode.clone()),
+                    Fl::Sync => run_history::<sync::Arena>(&c, &lock_ops, mode.clone()),
+                    Fl::Unsync => run_history::<unsync::Arena>(&c, &lock_ops, mode.clone()),
                 }
             };
             let (v, a, f) = (run(Backend::Vec), run(Backend::Anon), run(Backend::File));
@@ -379,6 +383,18 @@ fn c16_run_inner(case: &CaseC16) -> CaseReport {
             viol = compare_runs("C16", &v, &a, "Vec", "anon-mmap", true, true).or_else(|| compare_runs("C16", &v, &f, "Vec", "file-mmap", true, true));
             if viol.is_none() && !v.trace.is_empty() {
                 classes.insert("three-backends-compared");
+            }
+            // the whole history (with truncate) on the case's own backend and layout: reserved prefix,
+            // remaining law and accessors are checked after every step by the interpreter
+            if viol.is_none() {
+                let mut c = case.cfg.clone();
+                c.cap_extra = case.delta as u32;
+                let single = match c.flavor {
+                    Fl::Sync => run_history::<sync::Arena>(&c, &case.ops, Mode::default()),
+                    Fl::Unsync => run_history::<unsync::Arena>(&c, &case.ops, Mode::default()),
+                };
+                classes.extend(single.classes.iter().copied());
+                viol = single.viol.or(single.foreign);
             }
         }
         let nontrivial = classes.contains("reserved-unaligned") || classes.contains("capacity-at-prefix");
@@ -398,6 +414,10 @@ impl Prop for C16 {
         p.w_minseg = 2;
         p.w_discard = 2;
         p.owned_pct = 10;
+        // "never written by any arena operation": truncate (unsync), clear and rewind belong to the history too
+        p.w_truncate = 4;
+        p.w_clear = 1;
+        p.w_rewind = 2;
         let delta = prop_oneof![4 => -3i32..=3, 1 => -40i32..0, 3 => 4i32..3000];
         (cfg_strategy(&p), delta, 0u8..crate::types::ntypes() as u8, prop::collection::vec(op_strategy(&p), 0..=p.max_ops), prelude_strategy(), any::<bool>())
             .prop_map(|(cfg, delta, first_ty, ops, pre, use_pre)| {
